@@ -331,6 +331,52 @@ def projStep (p : Proj Text) : Op Text → Proj Text
 def projRun (h : List (Op Text)) : Proj Text := h.foldl projStep Proj.new
 
 
+/-! ### The document layer's rename (`crates/trust-lsp/src/state/documents.rs`, `rename_document`)
+
+Keys are *canonical* `SourceKey`s (`source_key_for_uri`): two different URIs of one file are one
+key, so `old = new` is possible (case-only rename, symbolic link, percent-encoding).  The document's
+content is the text the project holds for the old key (`open_document` / `update_document` set both
+together). -/
+
+/-- The text the project currently holds for a key. -/
+def projText (p : Proj Text) (key : Nat) : Option Text :=
+  (lookup p.ids key).bind (lookup p.db.sources)
+
+/-- `rename_document`: `docs.remove(old_uri)?`, then — in this order —
+`project.remove_source(&old_key); project.remove_source(&new_key);
+project.set_source_text(new_key, doc.content)`. -/
+def projRename (p : Proj Text) (old new : Nat) : Proj Text :=
+  match projText p old with
+  | none => p
+  | some t => projSet (projRemove (projRemove p old) new) new t
+
+/-- The alphabet of the document layer: the project operations plus rename. -/
+inductive POp (Text : Type) where
+  | op (o : Op Text)
+  | rename (old new : Nat)
+deriving DecidableEq, Repr
+
+def projStepX (p : Proj Text) : POp Text → Proj Text
+  | .op o => projStep p o
+  | .rename old new => projRename p old new
+
+def projRunX (h : List (POp Text)) : Proj Text := h.foldl projStepX Proj.new
+
+namespace Spec
+
+/-- Effect of a rename on "the current text of every key": the new key takes the old key's text,
+the old key (if it is another one) loses it; nothing happens if the old key has no text. -/
+def stepX (m : Nat → Option Text) : POp Text → Nat → Option Text
+  | .op o => step m o
+  | .rename old new =>
+    match m old with
+    | none => m
+    | some t => fun g => if g = new then some t else if g = old then none else m g
+
+def finalX (h : List (POp Text)) : Nat → Option Text := h.foldl stepX (fun _ => none)
+
+end Spec
+
 /-! ### A fragment of the analysis itself: enumeration values (finding
 `C13-enum-next-value-overflow`, fixed in /repo by 0bd32a4)
 
